@@ -163,6 +163,14 @@ def get_attr(it, o, name):
         if name == "__func__":
             return o.func
         return get_attr(it, o.func, name)
+    if isinstance(o, Builtin) and o.name == "list" and name == "__setitem__":
+        # the unbound method of the builtin class, applied to a concrete list at a concrete index
+        def list_setitem(lst, i, v):
+            if not isinstance(lst, list) or not isinstance(i, int) or isinstance(i, bool):
+                raise Unsupported("list.__setitem__ on a non-list receiver or a symbolic index")
+            lst[i] = v
+            return None
+        return Builtin("list.__setitem__", list_setitem)
     if isinstance(o, Builtin) and o.name == "dict" and name == "fromkeys":
         return Builtin("dict.fromkeys", lambda keys, value=None: {it.hashable(k): value for k in it.iterate(keys)})
     if isinstance(o, Builtin) and o.name in ("set", "frozenset") and name in ("union", "intersection"):
